@@ -1,5 +1,14 @@
 # Per-property configuration of the orchestrator (bin/check).
 PROPS = {
+    "C01": {
+        "pkg": "c01", "level": "exploration",
+        "rule": "Case = leaf size x content length x source chunking x reader configuration x read program. Leaf sizes 64, 65, 100, 4 KiB (full cross product of length classes {0, 1, k*leaf-1, k*leaf, k*leaf+1 for k=1..6, random} with ~20 source kinds at leaf 64; sampled at the others), 64 KiB, 1 MiB, 1.5 MiB, 2 MiB, 5 MiB (sampled); sources: one single Write of everything, WriterTo sources issuing fixed/random write sizes (1, 7, leaf-1, leaf, leaf+1, 32 KiB, 3*leaf), plain readers with fixed/random chunks, (n, EOF)-together, iotest One/Half/DataErr readers; prefetch 0..3, cache 1..4 leaves or default, flush concurrency 1..16, memstore (whole or chunked blob readers) or localfs. Every case is read back through sequential Read (6-7 buffer sizes), >= 50 ReadAt incl. at/past EOF, WriteTo to a plain writer and to a WriterAt, interleaved Read/ReadAt, and (class concurrent-readat) 4 goroutines sharing a 1-2 leaf cache. Non-trivial: the Put succeeded and was read back; distinct by the full parameter tuple.",
+        "technique": "runtime monitoring: byte-exact comparison of every read against the stored content, Write-loop progress assertion (hook cafs.write.iter), child-death attribution",
+        "level_text": "Generated contents are stored through the real cafs with hostile chunkings and configurations and every byte returned by every read style is compared with the original; a hook in the Write loop turns non-termination into a logical violation. Exploration is the right level: the input space is unbounded but the boundaries (leaf multiples, EOF, single writes longer than a leaf) are enumerated systematically.",
+        "level_note": "Trusted: memstore (self-checked with porcupine in setup), the SHA-256 counter-mode content generator. io.EOF versus nil at end of data is not judged. Held on the executions produced.",
+        "assumptions": ["blob store behaves like GCS (memstore) or is localfs on tmpfs"],
+        "vmem_gb": 40,
+    },
     "C20": {
         "pkg": "c20", "level": "exploration",
         "rule": "Five families of seeded sub-cases, run in blocks: (paths) every GetArchivePathTo* builder on valid names (unicode letters/digits/hyphen, connector punctuation for labels, KSUIDs incl. min/max, user-named splits, indices incl. 2^63 and 2^64-1) parsed back with GetArchivePathComponents and entered in a path->identity map; (consumable) GetConsumablePathTo* vs GetConsumableStorePathMetadata; (generated) IsGeneratedFile vs an independent first-component predicate on reserved names and near misses; (descriptors) randomly populated descriptors of 8 types through yaml marshal/unmarshal; (validation) ValidateRepo/ValidateLabel vs the documented alphabets. distinct_nontrivial counts distinct generated paths / names / serialized descriptors.",
